@@ -30,7 +30,7 @@ ASSUMPTIONS = [
     'failure belong to the same request and must stay on the same node.',
     'A transport exception counts as a failed request.',
 ]
-EXPECTED_PROBES = ['pool_given_as_bare_string', 'request_from_worker_thread', 'duplicate_pool_entry', 'two_clients_one_uri_list', 'error_then_request', 'exception_then_request', 'transient_exhausted_then_request', 'wrapped_around']
+EXPECTED_PROBES = ['application_touched_client_inputs', 'pool_given_as_bare_string', 'request_from_worker_thread', 'duplicate_pool_entry', 'two_clients_one_uri_list', 'error_then_request', 'exception_then_request', 'transient_exhausted_then_request', 'wrapped_around']
 
 OUTCOMES = ['ok', 's404', 's401', 's400', 'perm500', 'trans_ok', 'trans6', 'exc', 'exc_timeout', 'exc_chunked', 'exc_connect_timeout']
 VIAS = ['get', 'post', 'put', 'delete', 'request', 'shell.header', 'shell.counter', 'shell.inject',
@@ -67,6 +67,10 @@ def gen(seed, tier):
             st['shell2'] = True  # issued through a second ShellQuery built over the same RpcMultiNode object
         if threads and rng.random() < 0.5:
             st['thread'] = rng.choice([1, 2])  # issued from a worker thread (strictly sequential hand-off: start, join)
+        if rng.random() < 0.04:
+            # between two requests the application touches things the client was built from / exposes:
+            # it edits the list it passed to the constructor, or re-assigns the public `headers` attribute (a refreshed token)
+            st['touch'] = rng.choice(['append_uri', 'remove_uri', 'set_headers'])
         if two_clients and rng.random() < 0.4:
             st['client'] = 1  # a second RpcMultiNode built from the very same list object (e.g. two `using('<net>.pool')` clients)
         if o == 'trans_ok':
@@ -132,8 +136,12 @@ def execute(scn, want_log=False):
         clients = {0: RpcMultiNode(shared_list[0] if scn.get('bare_string_pool') else shared_list)}
         shells = {}
         counts = {0: 0, 1: 0}
+        touched = [False]
         for gi, st in enumerate(scn['steps']):
             cid = st.get('client', 0)
+            if cid not in clients and touched[0]:
+                cid = 0  # the shared list was edited meanwhile: a client built from it now would be a different pool
+                node = clients[0]
             if cid not in clients:
                 clients[cid] = RpcMultiNode(shared_list[0] if scn.get('bare_string_pool') else shared_list)  # created lazily: the first client may already have made requests
             node = clients[cid]
@@ -144,6 +152,15 @@ def execute(scn, want_log=False):
             i = counts[cid]
             counts[cid] += 1
             prev = prevs.get(cid, 'start')
+            if st.get('touch') and not scn.get('bare_string_pool'):
+                if st['touch'] == 'append_uri':
+                    shared_list.append('http://extra.sim:8732')
+                elif st['touch'] == 'remove_uri' and len(shared_list) > 1:
+                    shared_list.pop()
+                elif st['touch'] == 'set_headers':
+                    node.headers = {'Authorization': f'Bearer t{gi}'}
+                touched[0] = touched[0] or st['touch'] != 'set_headers'
+                bump('application_touched_client_inputs')
             cur['outcome'] = st['outcome']
             cur['left'] = st.get('r', 0)
             first = len(sim.log)
@@ -274,7 +291,7 @@ def simplify(scn):
             c = json.loads(json.dumps(scn))
             c['steps'][i]['via'] = 'get'
             yield c
-        for fld in ('shell2', 'client', 'thread'):
+        for fld in ('shell2', 'client', 'thread', 'touch'):
             if st.get(fld):
                 c = json.loads(json.dumps(scn))
                 del c['steps'][i][fld]
